@@ -33,7 +33,7 @@ def _hash_files(paths: list[str], extra: str) -> str:
     h = hashlib.blake2b(digest_size=10)
     h.update(extra.encode())
     for p in sorted(paths):
-        h.update(os.path.basename(p).encode() + b"\0")
+        h.update(("/".join(p.split(os.sep)[-2:])).encode() + b"\0")
         with open(p, "rb") as f:
             h.update(f.read())
         h.update(b"\0")
@@ -70,11 +70,14 @@ GILSHIM = os.path.join(VERIF, "sim", "gilshim.h")
 
 
 def source_files(repo: str = REPO) -> list[str]:
+    """Every source file of the package (recursively), excluding build products."""
     d = os.path.join(repo, "yarl")
     out = []
-    for n in sorted(os.listdir(d)):
-        if n.endswith((".py", ".pyx", ".pyi", ".pxd", ".typed")):
-            out.append(os.path.join(d, n))
+    for root, dirs, names in os.walk(d):
+        dirs[:] = sorted(x for x in dirs if x != "__pycache__")
+        for n in sorted(names):
+            if n.endswith((".py", ".pyx", ".pyi", ".pxd", ".pxi", ".typed", ".h")):
+                out.append(os.path.join(root, n))
     return out
 
 
@@ -100,23 +103,28 @@ def ensure_stage(repo: str = REPO) -> str:
         shutil.rmtree(tmp, ignore_errors=True)
         pkg = os.path.join(tmp, "yarl")
         os.makedirs(pkg)
-        pyx = None
+        pyxs = []
+        src_root = os.path.join(repo, "yarl")
         for f in files:
-            shutil.copy2(f, pkg)
+            rel = os.path.relpath(f, src_root)
+            dst = os.path.join(pkg, rel)
+            os.makedirs(os.path.dirname(dst), exist_ok=True)
+            shutil.copy2(f, dst)
             if f.endswith(".pyx"):
-                pyx = os.path.basename(f)
+                pyxs.append(dst)
         # every .py must at least compile: otherwise harness error
-        for f in os.listdir(pkg):
-            if f.endswith(".py"):
-                try:
-                    with open(os.path.join(pkg, f), "rb") as fh:
-                        compile(fh.read(), f, "exec")
-                except SyntaxError as e:
-                    raise StageError("syntax error in %s: %s" % (f, e))
-        if pyx is not None:
-            cfile = os.path.join(pkg, pyx[:-4] + ".c")
-            _run([PY, "-m", "cython", "-3", "-o", cfile, os.path.join(pkg, pyx)])
-            so = os.path.join(pkg, pyx[:-4] + sysconfig.get_config_var("EXT_SUFFIX"))
+        for root, _dirs, names in os.walk(pkg):
+            for f in names:
+                if f.endswith(".py"):
+                    try:
+                        with open(os.path.join(root, f), "rb") as fh:
+                            compile(fh.read(), f, "exec")
+                    except SyntaxError as e:
+                        raise StageError("syntax error in %s: %s" % (f, e))
+        for pyx in pyxs:
+            cfile = pyx[:-4] + ".c"
+            _run([PY, "-m", "cython", "-3", "-o", cfile, pyx], cwd=tmp)
+            so = pyx[:-4] + sysconfig.get_config_var("EXT_SUFFIX")
             _cc_ext(cfile, so, extra=["-include", GILSHIM])
         with open(os.path.join(tmp, ".ok"), "w") as fh:
             fh.write(key)
